@@ -39,11 +39,29 @@ def solver_spec(draw):
     # "arbitrary problems": mostly N=1..5, sometimes 6 or 7 (Rastrigin and XSquared ship in any dimension)
     recipe = draw(gen.problem_recipe(dims=(1, 2, 3, 4, 5, 1, 2, 3, 4, 5, 6, 7)))
     if draw(st.integers(0, 4)) == 0:
+        # a shipped benchmark problem (their generators keep tables; two live instances must not share them)
+        recipe = draw(gen.shipped_recipe(grishagin=True))
+        nn = {"hill": 1, "shekel": 1, "grishagin": 2}.get(recipe["shipped"][0])
+        if nn is None:
+            nn = recipe["shipped"][1] if recipe["shipped"][0] in ("rastrigin", "xsquared") else recipe["shipped"][1][0]
+        recipe = dict(recipe, n=nn)
+    if draw(st.integers(0, 4)) == 0:
         return {"recipe": recipe, "params": None}
     params = {"r": draw(gen.r_values), "eps": draw(gen.eps_values(min(recipe["n"], 5), 10, cheap=False)),
               "itersLimit": draw(st.sampled_from([1, 2, 5, 20, 40, 40]))}
     if draw(st.integers(0, 3)) == 0:
         params["refine"] = True          # refineSolution=True: Solve ends with the local refinement
+    if "shipped" not in recipe and draw(st.integers(0, 3)) == 0:
+        # SolverParameters.startPoint (ignored by the pinned code); near a minimiser in half of the cases, so that
+        # a start point that is honoured would stay the best trial for a while
+        obj = recipe["obj"]
+        near = obj.get("p")
+        near = near[0] if (near and isinstance(near[0], list)) else near
+        if near is not None and len(near) == recipe["n"] and draw(st.booleans()):
+            u = [min(1.0, max(0.0, float(v))) for v in near]
+        else:
+            u = [draw(gen.unit01) for _ in range(recipe["n"])]
+        params["startPoint"] = [a + t * (b - a) for a, b, t in zip(recipe["lower"], recipe["upper"], u)]
     spec = {"recipe": recipe, "params": params}
     if draw(st.integers(0, 3)) == 0:
         # one SolverParameters object handed to several solvers: this solver re-uses the object (and therefore
